@@ -174,6 +174,15 @@ type RegexpVal struct{ Name string } // pkg.var
 
 type OpaqueVal struct{ What string }
 
+// SymListVal: a slice of unknown length whose elements are not bytes (a parameter such as `cases []CaseText[T]`).
+// Elements are created on demand, one object per index term; the slice itself is never written by verified code.
+type SymListVal struct {
+	Sym   string
+	Len   *Term
+	Elem  types.Type
+	elems map[*Term]*Object // shared
+}
+
 // ---- merge -----------------------------------------------------------------------------------------
 
 type mergeErr struct{ msg string }
@@ -361,8 +370,19 @@ func (x *Exec) iteVal(c *Term, a, b Val) Val {
 			}
 			return r
 		}
+		if ok && av.Fn == nil && bv.Fn == nil && av.Global == "" && bv.Global == "" {
+			// two unknown (or nil) function values: an unknown one that is nil exactly when the chosen side is
+			x.callSeq++
+			sig := av.Sig
+			if sig == nil {
+				sig = bv.Sig
+			}
+			r := FuncVal{Sym: fmt.Sprintf("fmerge%d", x.callSeq), Sig: sig}
+			x.assume(o.Eq(x.funcIsNil(r), o.Ite(c, x.funcIsNil(av), x.funcIsNil(bv))))
+			return r
+		}
 		panic(mergeErr{"merge of different function values"})
-	case ListSliceVal, MapVal, RegexpVal, OpaqueVal, rangeIter:
+	case ListSliceVal, MapVal, RegexpVal, OpaqueVal, rangeIter, SymListVal:
 		return a // immutable tables: both sides must be the same object by construction
 	case nil:
 		return b
@@ -517,6 +537,9 @@ func sameVal(a, b Val) bool {
 		return true
 	case OpaqueVal, RegexpVal, MapVal, rangeIter:
 		return true
+	case SymListVal:
+		bv, ok := b.(SymListVal)
+		return ok && av.Sym == bv.Sym
 	case ListSliceVal:
 		bv, ok := b.(ListSliceVal)
 		return ok && av.Obj == bv.Obj && av.Lo == bv.Lo && av.Hi == bv.Hi
